@@ -22,7 +22,7 @@ pub fn def() -> PropDef {
     PropDef {
         info: PropInfo {
             id: "C20",
-            rule: "corpus lines generated from the strategies of the other checks: A = assembly texts (C13 programs and C14 token soup), V = near-valid byte strings (C06), D = well-formed instruction streams (C15) and the near-valid byte strings of C06 cut to whole slots (a panic is an answer like any other), X = structured programs + inputs (C01/C03, helper-free), dense straight-line programs, and call-graph / helper-call programs (C07/C08) with registered helpers and a stack-usage calculator on each of the four VM kinds, helper-call programs that are compiled and run, then - after every helper id was re-registered with another function - compiled and run again on the same VM object (R lines), and helper-call programs for which the no_std build's caller-supplied JIT memory is placed near the helper and on either side of the +-2^31 distances from it; the JIT only on runs the reference model classifies as defined, terminating and in bounds. Each line is evaluated in two builds of the crate: the default one (in this process, executions fork-isolated) and the no_std one (binary harness-nostd, JIT running from caller-supplied mmap'ed executable memory). Oracle: the two transcripts are equal line by line - assembler Ok(bytes)/Err (messages are documented to differ, only the kind is compared), verifier Ok/Err, disassembler entries field by field, interpreter Ok(value)+packet bytes / Err, JIT Ok(value)+packet bytes / compile error. Non-trivial = line whose default-build result is Ok with at least 2 instructions, or Err; distinct by hash of the line.",
+            rule: "corpus lines generated from the strategies of the other checks: A = assembly texts (C13 programs and C14 token soup), V = near-valid byte strings (C06), D = well-formed instruction streams (C15) and the near-valid byte strings of C06 cut to whole slots (a panic is an answer like any other), X = structured programs + inputs (C01/C03, helper-free), dense straight-line programs, and call-graph / helper-call programs (C07/C08) with registered helpers and a stack-usage calculator on each of the four VM kinds, helper-call programs that are compiled and run, then - after every helper id was re-registered with another function - compiled and run again on the same VM object (R lines), helper-free programs that are compiled and run, replaced by another program with set_program(), compiled and run again on the same VM object (R lines with a second program), and helper-call programs for which the no_std build's caller-supplied JIT memory is placed near the helper and on either side of the +-2^31 distances from it; the JIT only on runs the reference model classifies as defined, terminating and in bounds. Each line is evaluated in two builds of the crate: the default one (in this process, executions fork-isolated) and the no_std one (binary harness-nostd, JIT running from caller-supplied mmap'ed executable memory). Oracle: the two transcripts are equal line by line - assembler Ok(bytes)/Err (messages are documented to differ, only the kind is compared), verifier Ok/Err, disassembler entries field by field, interpreter Ok(value)+packet bytes / Err, JIT Ok(value)+packet bytes / compile error. Non-trivial = line whose default-build result is Ok with at least 2 instructions, or Err; distinct by hash of the line.",
             assumptions: &["the no_std build is linked into an ordinary std binary (only the crate's own feature set differs)", "Cranelift and the std-only helpers do not exist in the no_std build and are outside this property"],
         },
         run,
@@ -139,6 +139,8 @@ pub fn std_eval(runner: &mut Runner, line: &str) -> String {
             // run again - on one VM object
             let x_form = format!("X{}", &line[1..]);
             let Some((case, _)) = parse_x(&x_form) else { return "?".into() };
+            // optional: another program, loaded with set_program() before the second compilation
+            let prog2: Option<&'static [u8]> = line.split(' ').nth(13).and_then(|x| x.strip_prefix("p2:")).map(|h| &*Box::leak(isa::unhex(h).into_boxed_slice()));
             let r = super::fork_call(|| {
                 let prog: &'static [u8] = Box::leak(case.prog.clone().into_boxed_slice());
                 let pkt: &'static mut [u8] = Box::leak(case.pkt.clone().into_boxed_slice());
@@ -153,8 +155,19 @@ pub fn std_eval(runner: &mut Runner, line: &str) -> String {
                     }
                 }
                 let Ok(mut vm) = crate::vmx::AnyVm::new(case.vm, Some(prog)) else { return (2, 0) };
+                let offs = match case.vm {
+                    VmKind::Fixed { data_off, end_off } => (data_off, end_off),
+                    _ => (0, 0),
+                };
                 let mut vals = [0u64; 2];
                 for round in 0..2u8 {
+                    if round == 1 {
+                        if let Some(p2) = prog2 {
+                            if vm.set_program(p2, offs).is_err() {
+                                return (7, 0);
+                            }
+                        }
+                    }
                     for (id, p) in &case.helpers {
                         if vm.register_helper(*id, pool_fn((*p + round) % 8)).is_err() {
                             return (3, 0);
@@ -376,6 +389,23 @@ fn run(ctx: &Ctx) {
         ctx.stats().class("R:compile-run-rebind-compile-run");
         let x = x_line(&case, true);
         lines.push(format!("R{}", &x[1..]));
+    }
+    // compile and run, load ANOTHER program with set_program(), compile and run again on the same
+    // VM object - helper-free programs, no calculator (both builds must then run the new program)
+    {
+        let dg = gen::dense_alu(40);
+        for i in 0..ctx.share(400 * scale) {
+            let mut case = sample(&dg, &mut tr);
+            let other = sample(&dg, &mut tr);
+            if case.prog == other.prog {
+                continue;
+            }
+            vary_vm(&mut case, i);
+            case.budget = 1_000_000;
+            ctx.stats().class(&format!("R:compile-run-reload-compile-run:{}", vm_fields(case.vm).0));
+            let x = x_line(&case, true);
+            lines.push(format!("R{} p2:{}", &x[1..], isa::hex(&other.prog)));
+        }
     }
     // where the caller-supplied JIT memory of the no_std build lies relative to the helpers: near
     // them, and on either side of the 2^31 distances at which a rel32 call stops reaching - with
